@@ -2,7 +2,7 @@
 # usage: seed_eval.sh <Cxx> <patchfile> <label> : apply a seeded change to a scratch worktree of /repo's HEAD, run the check against it, undo
 # (the checks honour VERIF_REPO; evidence/replays of these runs go to /tmp so that /verif/evidence keeps the clean-tree records)
 id=$1; patch=$2; label=$3
-W=/tmp/repo-eval
+W=${EVAL_WT:-/tmp/repo-eval}
 cd $W && git checkout -q --detach $(git -C /repo rev-parse HEAD) && git checkout -q -- . && git apply "$patch" || { echo "EVAL $label PATCH-FAILED"; exit 1; }
 cd /verif && s=$(date +%s) && VERIF_REPO=$W VERIF_EVIDENCE_DIR=/tmp/eval-evidence VERIF_REPLAY_DIR=/tmp/eval-replays VERIF_SMT_DIR=/tmp/eval-smt ./check $id --tier quick > /tmp/seed-eval-$label.log 2>&1; rc=$?
 cd $W && git checkout -q -- .
